@@ -251,6 +251,9 @@ CONTENTS = [
     ("(Red, (Blue, (Label/#)))", 1, True, False, 1),
     ("(Label/#, Description/#)", 2, False, False, 1),
     ("(Label/##, Blue)", 2, False, False, 1),
+    # the same placeholder tag twice (in two sub-groups, and in another letter case): two '#', not one
+    ("(Label/#, (Label/#, Red))", 2, False, False, 1),
+    ("(Label/#, (label/#, Red))", 2, False, False, 1),
     ("(Red/#, Blue)", 1, False, False, 1),
     ("(Event/#, Blue)", 1, False, False, 1),
     ("(Def/Pl, Red)", 0, False, True, 1),
